@@ -23,6 +23,7 @@ struct KeySpec {
     int tls13_psk_cipher = 0;        // cipher suite bound to that PSK (needed for early data under it); 0 = unbound
     int forge_cert_mode = 0;         // with forge_cert_sig: 0 = one bit of the issuer's signature flipped; 1 = issuer name changed by one character and the signature
                                      // field replaced by the trusted CA certificate's own signature bytes (public data: no key is needed to make such a certificate)
+    bool chain = false;              // the identity is sent as a two-element chain: leaf followed by its issuer's certificate
     bool forge_cert_sig = false;     // identity certificate with one bit of the issuer's signature flipped (key still matches): a forged certificate
 };
 sslKeys_t *load_keys(const KeySpec &ks, int *rc_out = nullptr);
